@@ -37,6 +37,8 @@ unsafe impl lock_api::RawRwLock for RawRwLock {
         while !self.try_lock_exclusive() {
             verif_rt::contended();
         }
+        // the lock is now held: let other tasks run into it
+        verif_rt::point(verif_rt::Site::DashHeldExclusive);
     }
 
     #[inline]
@@ -68,6 +70,7 @@ unsafe impl lock_api::RawRwLock for RawRwLock {
         while !self.try_lock_shared() {
             verif_rt::contended();
         }
+        verif_rt::point(verif_rt::Site::DashHeldShared);
     }
 
     #[inline]
